@@ -129,3 +129,8 @@ Definition untouched (o : op) (id : N) : Prop :=
   | DeleteAll => False
   | Bcast _ => True
   end.
+
+(* rule.ID == "deleteAll" : the reserved word is that exact string, every other string is an ordinary
+   id.  The harness sends an id's name and its number; whether it is reserved is decided here. *)
+Definition id_of_name (name : string) (n : N) : N :=
+  if String.eqb name "deleteAll" then reserved else n.
